@@ -152,7 +152,15 @@ func c16RunBidir(ctx context.Context, c core.Case, p c16Params, r *core.Rec) {
 				case 5:
 					_ = pr.PeerInfo()
 				default:
-					err = pr.SyncDocuments(ctx, "U", []string{ids[rng.IntN(nDocs)].String()})
+					// SyncDocuments waits for answers until its context ends (that is its contract),
+					// so it gets a deadline; its outcome is only noted
+					sctx, cancel := context.WithTimeout(ctx, 300*time.Millisecond)
+					err = pr.SyncDocuments(sctx, "U", []string{ids[rng.IntN(nDocs)].String()})
+					cancel()
+					if err != nil {
+						r.Note("bidir SyncDocuments: " + c16Scrub(err.Error()))
+						err = nil
+					}
 				}
 				cfgOps.Add(1)
 				if err != nil {
